@@ -301,6 +301,15 @@ def run(tier):
                   "ZSTD_seekable_decompress hands a frame the whole rest of the caller's buffer: a corrupted frame that regenerates more than its table entry "
                   "says fills the following offsets, the read ends without the frame completing and without any checksum - wrong data returned as success")
     res.need("T8.frame-output-capped", 2)
+    # ... and a read that ends exactly at a frame's end goes on until the frame completes (that is where both checksums are
+    # compared): the decoding loop is re-entered on `decompressedOffset == <frame end from the table>`
+    dec = f.call_roots("ZSTD_decompressStream")
+    atend = guards.rel_edges(f, lambda a: any(y.get("f") == "decompressedOffset" for y in f.walk_resolved(a)), "==",
+                             lambda b_: "f:dOffset" in f.anchors(b_, depth=3), truth=True)
+    ok = bool(dec) and bool(atend) and any(d in f.flow([(e[1], 0)]) for e in atend for d in dec)
+    res.check(ok, "T3.cut", "whole-frame-read-completes-the-frame", f.loc, "the decoding loop continues while decompressedOffset equals the frame's end in the table",
+              "ZSTD_seekable_decompress stops as soon as the requested bytes are produced even when the read ends where the frame ends: the frame never "
+              "completes, neither checksum is compared, and damaged content of a whole frame is returned as success")
     # the table size is computed in 32 bits from the announced frame count: the count is bounded by the format's maximum before
     # the table is allocated or walked, and with that bound the 32-bit size cannot wrap
     from ..rules.linear import macro_value
